@@ -17,7 +17,7 @@ func propC17() *fw.Prop {
 		ID: "C17", Level: "exploration",
 		Rule:        "implication monitor over (check, run) pairs of the SAME text: well-typed generated scripts (which check clean and run successfully on generous balances — the control) receive one type-breaking edit (literal of another type in any typed position incl. inside monetary literals and + / − operands, mis-declared variable with a value of its new declared type, removed declaration, wrong arity, unknown or misplaced function, allotment / unbounded / @world source under send-all, ill-typed arithmetic) and are then checked and executed with values of the declared types. Violation: no error-severity diagnostic but the run fails with a type error, unbound variable/function, bad arity or unknown type; or no diagnostic at all but the run fails on the shape of a send-all source. Distinct = (edit kind, position class, checker silent / not).",
 		Assumptions: []string{trustedBase},
-		Require:     []string{"edits_checked", "edits_flagged_by_checker", "edits_checker_silent", "edits_failing_statically_at_run_time", "edit_infix"},
+		Require:     []string{"edits_checked", "edits_flagged_by_checker", "edits_checker_silent", "edits_failing_statically_at_run_time", "edit_infix", "edit_origin-forward-reference"},
 		Run:         runC17,
 	}
 }
@@ -189,7 +189,28 @@ func goodValue(r *rng.R, t string) string {
 func typeEdit(r *rng.R, cs *gen.Case) (kind, where string) {
 	sc := cs.Script
 	for attempt := 0; attempt < 10; attempt++ {
-		switch r.Intn(10) {
+		switch r.Intn(12) {
+		case 10, 11: // a variable origin that refers to a declaration that comes later, or to itself
+			var accts []int
+			for i, d := range sc.Vars {
+				if d.Type == "account" && d.Origin == nil {
+					accts = append(accts, i)
+				}
+			}
+			if len(accts) == 0 || r.Chance(1, 3) {
+				// self reference
+				sc.Vars = append(sc.Vars, &gen.VarDecl{Type: "account", Name: "selfref", Origin: &gen.Call{Name: "meta", Args: []gen.Expr{gen.V("selfref"), gen.S("k")}}})
+				sc.Stmts = append(sc.Stmts, &gen.Call{Name: "set_tx_meta", Args: []gen.Expr{gen.S("s"), gen.V("selfref")}})
+				return "origin-self-reference", "origin"
+			}
+			j := accts[r.Intn(len(accts))]
+			nd := &gen.VarDecl{Type: "monetary", Name: "fwd", Origin: &gen.Call{Name: "balance", Args: []gen.Expr{gen.V(sc.Vars[j].Name), gen.As("USD")}}}
+			pos := r.Intn(j + 1)
+			nv := append([]*gen.VarDecl{}, sc.Vars[:pos]...)
+			nv = append(nv, nd)
+			sc.Vars = append(nv, sc.Vars[pos:]...)
+			sc.Stmts = append(sc.Stmts, &gen.Call{Name: "set_tx_meta", Args: []gen.Expr{gen.S("f"), gen.V("fwd")}})
+			return "origin-forward-reference", "origin"
 		case 0, 1, 2: // literal of another type
 			sl := exprSlots(sc)
 			if len(sl) == 0 {
@@ -339,7 +360,7 @@ func runC17(c *fw.Ctx) {
 			}
 		}
 	}
-	n := c.N(40000, 2500000)
+	n := c.N(100000, 2500000)
 	for i := 0; i < n; i++ {
 		id := "edit/" + itoa(i)
 		if !c.Want(i, id) {
